@@ -123,6 +123,43 @@ def _has_quantifier(x):
     return False
 
 
+_LAST = {"seconds": 0.0}
+
+
+def _solve(assertions, timeout_ms, seed=None, want_model=False):
+    """One check in a fresh z3 context -> ("sat" | "unsat" | "unknown", model in the ORIGINAL context or None)."""
+    ctx = z3.Context()
+    s = z3.Solver(ctx=ctx)
+    s.set("timeout", int(timeout_ms))
+    if seed is not None:
+        s.set("random_seed", seed)
+    for a in assertions:
+        s.add(a.translate(ctx))
+    t0 = time.time()
+    r = s.check()
+    _LAST["seconds"] = time.time() - t0
+    if r == z3.unsat:
+        return "unsat", None
+    if r == z3.sat:
+        model = None
+        if want_model:
+            try:
+                model = s.model().translate(z3.main_ctx())
+            except Exception:  # noqa: BLE001
+                model = None
+        return "sat", model
+    return "unknown", None
+
+
+def _confirmed(assertions, timeout_ms, force=False):
+    """Second opinion on an `unsat` that was not immediate: the same query again, fresh context, another seed, four times
+    the budget.  Only `unsat` twice counts (a fast first answer - the normal case - is taken as it is)."""
+    if not force and _LAST["seconds"] < 2.0:
+        return True
+    r, _m = _solve(assertions, 4 * timeout_ms, seed=7)
+    return r == "unsat"
+
+
 def check(pc, goal, timeout_ms=10000, portfolio=True, want_model=False):
     """Is pc => goal valid?  -> (status, backend, seconds, model|None); status unsat = discharged.
 
@@ -137,26 +174,24 @@ def check(pc, goal, timeout_ms=10000, portfolio=True, want_model=False):
                 return st, be, time.time() - t0, m
             backends.add(be)
         return "unsat", "+".join(sorted(b for b in backends if b)), time.time() - t0, None
+    # Every in-process attempt runs in its OWN z3 context (the formulas are translated into it).  With one shared context a
+    # solver that follows solvers interrupted by their timeout has been seen to answer `unsat` on a query that cvc5 finds
+    # satisfiable and that the same z3 leaves `unknown` when asked on its own - a wrong "proved".
     # 0. without the quantified hypotheses (dropping hypotheses is sound for `unsat`): the engine has already added the
     #    instances that matter (at the goal's skolem constants), and the quantified originals can make z3 diverge
     ground = [h for h in pc if not _has_quantifier(h)]
+    neg = z3.Not(goal)
+    budget = min(timeout_ms, IN_PROCESS_MS)
     if len(ground) != len(pc):
-        s0 = z3.Solver()
-        s0.set("timeout", min(timeout_ms, IN_PROCESS_MS))
-        s0.add(*ground)
-        s0.add(z3.Not(goal))
-        if s0.check() == z3.unsat:
+        r0, _m = _solve(ground + [neg], budget)
+        if r0 == "unsat" and _confirmed(ground + [neg], budget):
             return "unsat", "z3py-%s(qf-subset)" % z3.get_version_string(), time.time() - t0, None
-    s = z3.Solver()
     # quick in-process attempt first; hard queries go to the concurrent CLI portfolio with the full budget
-    s.set("timeout", min(timeout_ms, IN_PROCESS_MS) if portfolio else timeout_ms)
-    s.add(*pc)
-    s.add(z3.Not(goal))
-    r = s.check()
-    if r == z3.unsat:
+    r, model = _solve(list(pc) + [neg], budget if portfolio else timeout_ms, want_model=want_model)
+    if r == "unsat" and _confirmed(list(pc) + [neg], budget):
         return "unsat", "z3py-%s" % z3.get_version_string(), time.time() - t0, None
-    if r == z3.sat:
-        return "sat", "z3py-%s" % z3.get_version_string(), time.time() - t0, s.model()
+    if r == "sat":
+        return "sat", "z3py-%s" % z3.get_version_string(), time.time() - t0, model
     if portfolio:
         try:
             # a fresh solver: after check() z3 prints its preprocessed state (internal symbols such as
@@ -170,18 +205,14 @@ def check(pc, goal, timeout_ms=10000, portfolio=True, want_model=False):
                 return "unsat", backend, time.time() - t0, None
             if verdict == "sat":
                 return "sat", backend, time.time() - t0, None
-    # z3's verdict on the quantified queries varies from run to run (same input: 1 s or `unknown`); `unsat` from any
-    # attempt is a proof, so try again with other random seeds before giving up
+    # z3's verdict on the quantified queries varies from run to run (same input: 1 s or `unknown`): try again with other
+    # random seeds before giving up - an `unsat` found this way is accepted only when a second run confirms it
     for seed in (1, 2):
-        for hyps, tag in ((ground, "(qf-subset)"), (pc, "")):
+        for hyps, tag in ((ground, "(qf-subset)"), (list(pc), "")):
             if tag and len(ground) == len(pc):
                 continue
-            sr = z3.Solver()
-            sr.set("timeout", min(timeout_ms, IN_PROCESS_MS))
-            sr.set("random_seed", seed)
-            sr.add(*hyps)
-            sr.add(z3.Not(goal))
-            if sr.check() == z3.unsat:
+            rr, _m = _solve(hyps + [neg], budget, seed=seed)
+            if rr == "unsat" and _confirmed(hyps + [neg], budget, force=True):
                 return "unsat", "z3py-%s%s(seed %d)" % (z3.get_version_string(), tag, seed), time.time() - t0, None
     return "unknown", None, time.time() - t0, None
 
